@@ -230,7 +230,10 @@ def b_poly(tier):
     def val(pl, t):
         if not isinstance(pl, Polynomial):
             return pl
-        return sum(c * t ** e for e, c in pl.data)
+        try:
+            return sum(c * t ** e for e, c in pl.data)
+        except (ArithmeticError, TypeError, ValueError) as ex:     # a malformed result (negative exponent at 0, ...) has no value: never equal to one
+            return ("no-value", type(ex).__name__)
 
     def wf(pl):
         if not isinstance(pl, Polynomial):
